@@ -75,8 +75,10 @@ func (s String) Inspect() string {
 			break
 		}
 		if char == utf8.RuneError && size == 1 {
-			// invalid UTF-8 character
-			char = rune(leftStr[0])
+			// invalid UTF-8, write the raw byte
+			fmt.Fprintf(&buffer, `\x%02x`, leftStr[0])
+			leftStr = leftStr[size:]
+			continue
 		}
 		switch char {
 		case '\\':
@@ -104,7 +106,8 @@ func (s String) Inspect() string {
 		default:
 			if unicode.IsGraphic(char) {
 				buffer.WriteRune(char)
-			} else if char>>8 == 0 {
+			} else if char < utf8.RuneSelf {
+				// `\x` denotes a single byte
 				fmt.Fprintf(&buffer, `\x%02x`, char)
 			} else if char>>16 == 0 {
 				fmt.Fprintf(&buffer, `\u%04x`, char)
